@@ -39,13 +39,109 @@ static int op_radlen(int argc, char **argv, FILE *out) {
 /* findconf <type> <serverp> <fam 4|6> <addrhex> <port> { C<type> | E<fam>:<addrhex>:<prefix>:<port>:<hosttext> }...
    builds the static clconfs/srvconfs list through the REAL addhostport()+resolvehostports()
    and calls the real find_clconf / find_srvconf.  -> idx | none | cfgerr */
+/* udprd: the REAL radudpget(s, NULL, &server, &buf) — the reader of the proxy's UDP client socket — on a loopback socket. The
+   datagrams are sent, in order, from sockets bound to the given loopback addresses and ports; a last one from an address of
+   its own (a block appended behind all others) ends the run. Output: <id>@<block> for every datagram handed on, in order. */
+extern int radudpget(int s, struct client **client, struct server **server, unsigned char **buf);
+static int h_udprd(struct list *confs, int type, int ndg, char **dg_tok, FILE *out) {
+    struct sockaddr_in ra, sa;
+    socklen_t sl = sizeof(ra);
+    int rs = socket(AF_INET, SOCK_DGRAM, 0), es = socket(AF_INET, SOCK_DGRAM, 0), k, one = 1, first = 1, ok = 1;
+    struct clsrvconf *cur, *sent;
+    struct list_node *e;
+    char hpbuf[64], *hp[2];
+    uint8_t pkt[20], *buf = NULL;
+    struct server *srv = NULL;
+    struct timeval tv = {5, 0};
+    memset(&ra, 0, sizeof(ra));
+    ra.sin_family = AF_INET;
+    ra.sin_addr.s_addr = htonl(0x7f000001);
+    sa = ra;
+    sa.sin_addr.s_addr = htonl(0x7f090909);
+    if (rs < 0 || es < 0 || bind(rs, (struct sockaddr *)&ra, sizeof(ra)) || getsockname(rs, (struct sockaddr *)&ra, &sl) ||
+        bind(es, (struct sockaddr *)&sa, sizeof(sa)) || getsockname(es, (struct sockaddr *)&sa, &sl))
+        return 0;
+    setsockopt(rs, SOL_SOCKET, SO_RCVTIMEO, &tv, sizeof(tv));
+    for (e = list_first(confs); e; e = list_next(e)) {
+        cur = (struct clsrvconf *)e->data;
+        cur->servers = calloc(1, sizeof(struct server));
+        cur->servers->conf = cur;
+    }
+    sent = calloc(1, sizeof(*sent));
+    sent->type = type;
+    snprintf(hpbuf, sizeof(hpbuf), "127.9.9.9:%d", ntohs(sa.sin_port));
+    hp[0] = hpbuf;
+    hp[1] = NULL;
+    if (!addhostport(&sent->hostports, hp, "1812", 1) || !resolvehostports(sent->hostports, AF_UNSPEC, SOCK_DGRAM))
+        return 0;
+    sent->servers = calloc(1, sizeof(struct server));
+    sent->servers->conf = sent;
+    list_push(confs, sent);
+    srvconfs = confs;
+    memset(pkt, 0, sizeof(pkt));
+    pkt[0] = 2;
+    pkt[3] = 20;
+    for (k = 0; k < ndg && ok; k++) {
+        struct sockaddr_in da;
+        int al = 0, ds, port, id;
+        char *c1 = strchr(dg_tok[k], ':'), *c2 = c1 ? strchr(c1 + 1, ':') : NULL;
+        uint8_t *ab;
+        if (!c2)
+            return 0;
+        *c1 = 0;
+        ab = hx(dg_tok[k], &al);
+        *c1 = ':';
+        port = atoi(c1 + 1);
+        id = atoi(c2 + 1);
+        if (!ab || al != 4 || id < 0 || id > 254)
+            return 0;
+        memset(&da, 0, sizeof(da));
+        da.sin_family = AF_INET;
+        memcpy(&da.sin_addr, ab, 4);
+        da.sin_port = htons(port);
+        free(ab);
+        ds = socket(AF_INET, SOCK_DGRAM, 0);
+        setsockopt(ds, SOL_SOCKET, SO_REUSEADDR, &one, sizeof(one));
+        setsockopt(ds, SOL_SOCKET, SO_REUSEPORT, &one, sizeof(one));
+        pkt[1] = (uint8_t)id;
+        if (ds < 0 || bind(ds, (struct sockaddr *)&da, sizeof(da)) || sendto(ds, pkt, 20, 0, (struct sockaddr *)&ra, sizeof(ra)) != 20)
+            ok = 0; /* the address or port is not ours to send from here: the case is skipped, not judged */
+        if (ds >= 0)
+            close(ds);
+    }
+    pkt[1] = 255;
+    if (sendto(es, pkt, 20, 0, (struct sockaddr *)&ra, sizeof(ra)) != 20)
+        return 0;
+    for (;;) {
+        int idx = -1, n = 0;
+        radudpget(rs, NULL, &srv, &buf);
+        if (srv == sent->servers)
+            break;
+        for (e = list_first(confs); e; e = list_next(e), n++)
+            if (((struct clsrvconf *)e->data)->servers == srv)
+                idx = n;
+        if (ok)
+            fprintf(out, "%s%d@%d", first ? "" : " ", buf[1], idx);
+        first = 0;
+    }
+    free(buf);
+    close(rs);
+    close(es);
+    if (!ok)
+        fputs("skipped", out);
+    else if (first)
+        fputs("none", out);
+    return 1;
+}
+
 static int op_findconf(int argc, char **argv, FILE *out) {
     struct list *confs = list_create(), *saved_cl = clconfs, *saved_srv = srvconfs;
     struct clsrvconf *cur = NULL, *res;
     struct sockaddr_storage ss;
     int type, serverp, fam, la, port, i, idx = -1, n = 0, bad = 0, npend = 0;
     struct hostportres *pend_hp[64];
-    char *pend_tok[64];
+    char *pend_tok[64], *dg_tok[64];
+    int ndg = 0;
     uint8_t *a;
     struct list_node *e;
     if (argc < 5)
@@ -85,6 +181,9 @@ static int op_findconf(int argc, char **argv, FILE *out) {
             hp[1] = NULL;
             if (!addhostport(&cur->hostports, hp, "1812", 1))
                 bad = 1;
+        } else if (argv[i][0] == 'D' && ndg < 64) {
+            /* D<addrhex>:<port>:<id>: a datagram to be sent to the proxy's UDP client socket from that loopback address and port (udprd) */
+            dg_tok[ndg++] = argv[i] + 1;
         } else if (argv[i][0] == 'A' && cur && cur->hostports && npend < 64) {
             /* A<fam>:<addrhex>:<port>: one more resolved address of the preceding host entry (a name with several addresses) */
             struct list_node *ln = list_first(cur->hostports);
@@ -128,7 +227,13 @@ static int op_findconf(int argc, char **argv, FILE *out) {
     }
     if (bad)
         fputs("cfgerr", out);
-    else {
+    else if (ndg) {
+        if (!h_udprd(confs, type, ndg, dg_tok, out)) {
+            clconfs = saved_cl;
+            srvconfs = saved_srv;
+            return 0;
+        }
+    } else {
         if (serverp) {
             srvconfs = confs;
             res = find_srvconf(type, (struct sockaddr *)&ss, NULL);
@@ -149,6 +254,8 @@ static int op_findconf(int argc, char **argv, FILE *out) {
     while ((cur = list_shift(confs))) {
         if (cur->hostports)
             freehostports(cur->hostports);
+        if (ndg)
+            free(cur->servers);
         free(cur);
     }
     list_destroy(confs);
@@ -1828,7 +1935,7 @@ int h_rsp_op(const char *op, int argc, char **argv, FILE *out) {
     if (!strcmp(op, "hashmac")) return op_hashmac(argc, argv, out);
     if (!strcmp(op, "decttl")) return op_decttl(argc, argv, out);
     if (!strcmp(op, "radlen")) return op_radlen(argc, argv, out);
-    if (!strcmp(op, "findconf")) return op_findconf(argc, argv, out);
+    if (!strcmp(op, "findconf") || !strcmp(op, "udprd")) return op_findconf(argc, argv, out);
     if (!strcmp(op, "choose")) return op_choose(argc, argv, out);
     if (!strcmp(op, "pwdrecrypt")) return op_pwdrecrypt(argc, argv, out);
     if (!strcmp(op, "msmpprecrypt")) return op_msmpprecrypt(argc, argv, out);
